@@ -57,6 +57,10 @@ def cursor_inputs():
     for x in (b'', b'.', b',', b'.5', b',5Z', b'.5Z', b'.123456789Z', b'.123456789', b'.Z', b'.5z', b'.5 Z', b'Z', b'5Z', b'..5Z', b'.5.Z',
               b'.\xb5Z', b'.5\xdaZ', b'.' + b'9' * 60 + b'Z', b';5Z', b'-5Z', b'.5ZZ', b',0Zx', b'.5\x00Z', b'\xae5Z'):
         out.append(b'fracsec ' + hx(x).encode())
+    for b in range(256):
+        for tail in (b'', b'\x80', b'\xbf\x80', b'\x80\x80\x80', b'\x41', b'\x80\x41\x80', b'\xff\xff\xff'):
+            out.append(b'utf8 ' + hx(bytes([b]) + tail).encode())
+    out.append(b'utf8 -')
     return out
 
 
